@@ -543,3 +543,36 @@ def sector_alias_rewriters(prog):
                     any(isinstance(a, _ast.Name) and a.id in params for a in list(c.args) + [k.value for k in c.keywords]):
                 out.add(f.name)
     return out or {'_ReplaceAliases'}
+
+
+def truncating_breaks(it):
+    """`break` statements of an interpreted unit that end a loop in which other iterations have effects, in an iteration that has
+    none itself (nothing is selected by leaving): the elements after that one are silently left out of whatever the loop builds.
+    -> [(loop key, guards, where)]"""
+    out = []
+    loops_with_effects = {l[0] for e in it.effects for l in e.loops}
+    for lk, guards, where, selects in it.breaks:
+        if selects or lk not in loops_with_effects:
+            continue
+        out.append((lk, guards, where))
+    return out
+
+
+def registration_order_kept(prog, attr):
+    """the list self.<attr> of user registrations is only ever extended at its end outside constructors (append / extend / +=):
+    an insert at another position, a sort or a reversal changes which of two registrations for one key is applied last.
+    -> [(funcinfo, node, ok, why)]"""
+    out = []
+    for f in prog.all_functions():
+        if f.name == '__init__' or f.cls is None:
+            continue
+        for c in ast.walk(f.node):
+            if isinstance(c, ast.Call) and isinstance(c.func, ast.Attribute) and isinstance(c.func.value, ast.Attribute) and \
+                    c.func.value.attr == attr and isinstance(c.func.value.value, ast.Name) and c.func.value.value.id == 'self':
+                nm = c.func.attr
+                if nm in ('append', 'extend'):
+                    out.append((f, c, True, 'a registration is added at the end of %s' % attr))
+                elif nm in ('insert', 'sort', 'reverse', 'appendleft'):
+                    out.append((f, c, False, 'self.%s.%s(..): registrations are not kept in the order they were made, so an earlier '
+                                'definition can override a later one' % (attr, nm)))
+    return out
